@@ -82,7 +82,8 @@ fn composites(schema: &SchemaDoc) -> Vec<String> {
     schema.defs.iter().filter(|d| !matches!(d, TypeDef::Extend { .. })).map(|d| d.name().to_string()).filter(|n| is_composite(schema, n)).collect()
 }
 
-pub const EDITS: [&str; 13] = [
+pub const EDITS: [&str; 14] = [
+    "subscription_two_root_fields_one_response_name",
     "field_renamed_in_schema",
     "typename_only_in_variant_fragment",
     "unknown_field",
@@ -250,6 +251,18 @@ pub fn apply_edit(rng: &mut Rng, p: &Program, edit: &str) -> Option<Program> {
             let idx = q.doc.defs.iter().position(|d| matches!(d, QDef::Op { kind: OpKind::Subscription, .. }))?;
             if let QDef::Op { sel, .. } = &mut q.doc.defs[idx] {
                 sel.push(Sel::Field { alias: Some("second".into()), name: "ticks".into(), sub: vec![] });
+            }
+        }
+        // two root fields that answer under ONE response name (the second aliased to the name of the first):
+        // still two root fields
+        "subscription_two_root_fields_one_response_name" => {
+            let idx = q.doc.defs.iter().position(|d| matches!(d, QDef::Op { kind: OpKind::Subscription, .. }))?;
+            if let QDef::Op { sel, .. } = &mut q.doc.defs[idx] {
+                let first = match sel.first() {
+                    Some(Sel::Field { alias, name, .. }) => alias.clone().unwrap_or_else(|| name.clone()),
+                    _ => return None,
+                };
+                sel.push(Sel::Field { alias: Some(first), name: "ticks".into(), sub: vec![] });
             }
         }
         "anonymous_operation" => {
